@@ -10,11 +10,11 @@ RULE = ("responses generated from a grammar over all server-side package types (
         "one packet; EVERY single cut; EVERY pair of cuts of short responses; all 2^(n-1) cut sets of very short ones; random many-cut and fixed-size packetisations incl. 1-byte bodies and "
         "header-only packets; each packetisation is fed to the real Channel (events per packet compared with the model's); transport: the byte stream is handed to the real reader goroutine in "
         "1-byte reads, random reads and reads splitting headers, the packages delivered through NextPackage are compared with the model's. One case = one packetisation/read script; "
-        "non-trivial = more than one packet or read; distinct by input.")
+        "non-trivial = more than one packet or read; distinct by input. Further: packetisations with EMPTY (header-only) packets at any place - before, between and after the packets of a response, directly before rows / parameters or inside a package (cut-ho); Channel.Reset() between packets (fn 14).")
 ASSUMPTIONS = ASSUMPTIONS_COMMON + ["C02_fragmentation_independent assumes the one-packet run raises no parse error (responses of a server are parseable); erroneous streams are compared case by case (C10)"]
 LEVEL_TEXT = ("C02_fragmentation_independent: for every message, every channel state at a message boundary, any number of hooks and EVERY non-empty chunking, the events (deliveries with field "
               "values, hook calls, synthetic DONE) and final state equal those of the single packet. C02_transport_independent / _partitions_agree: for EVERY partition of a byte stream into reads the "
-              "reader yields the same packets. C02_nothing_invented: exactly the parsed packages' events plus at most one synthetic final DONE. The models are compared with the implementation on every run.")
+              "reader yields the same packets. C02_nothing_invented: exactly the parsed packages' events plus at most one synthetic final DONE. The models are compared with the implementation on every run. C02_header_only_packet_transparent / _state: a header-only packet at ANY place of ANY packet sequence is reported by its own marker and leaves the events of all other packets and the channel state unchanged.")
 LEVEL_NOTE = "Trusted: Coq kernel; hand-written rx/transport models and package decoders (validated by correspondence on every run); Go harness; extraction + driver. Goroutine scheduling is observed, not modelled."
 def nontrivial(c):
     return len(c[1]) > 60
